@@ -106,7 +106,7 @@ def replay_group(item):
 
 def run(ctx):
     try:
-        states = {"ok", "ok2", "bad", "missing", "null", "ambig", "casefold", "numstr", "dup_bad_last"}
+        states = {"ok", "ok2", "bad", "missing", "null", "ambig", "casefold", "numstr", "dup_bad_last", "numedge", "numedge_ok"}
         res = ctx.model("SchemaDocs", constants={"MaxFields": 2 if ctx.thorough else 1, "StateSet": states, "Spell": True},
                         invariants=["EmitCase"], required_actions=["Fill"])
         cases = list(res.payload_lines())
